@@ -15,7 +15,7 @@ group creation) replayed through the model machine."""
 import importlib
 import random
 
-from lib import cmd, Sym, import_impl, outcome, is_error
+from lib import cmd, Sym, import_impl, outcome, is_error, family_replies
 
 META = dict(
     technique='Coq theorems (to_cnf_in_range for every IR list; allocation-history invariant over fold_left; numvar/range clauses of the substitution and shuffle theorems) + differential at realistic sizes + recorded allocation histories replayed in the extracted machine',
@@ -68,12 +68,12 @@ def run(ctx):
     jobs = []
     for fam in fams:
         ps = fam['params'](rng, ctx.tier)
-        cap = 50 if quick else 300
+        cap = 30 if quick else 300
         if len(ps) > cap:
             ps = ps[-cap // 2:] + rng.sample(ps[:-cap // 2], cap // 2)      # keep the large ones (generated last)
         jobs += [(fam, p) for p in ps]
-    replies = ctx.model.batch([fam.get('request_spec', fam['request'])(p) for fam, p in jobs]) if jobs else []
-    for (fam, p), rep in zip(jobs, replies):
+    replies = family_replies(ctx.model, jobs)
+    for (fam, p), reps in zip(jobs, replies):
         for fc in (CNF, OPB):
             r = outcome(fam['build'], p, fc)
             if r[0] != 'ok':
@@ -95,7 +95,9 @@ def run(ctx):
                 ctx.violation('counterexample', '%s (%s): %d variables, the documentation promises %d' % (fam['name'], fc.__name__, n, doc),
                               dict(input=dict(family=fam['name'], params=p, formula_class=fc.__name__), numvar=n, documented=doc), True, site='family-numvar', cls=fam['name'])
                 continue
-            if not is_error(rep) and isinstance(rep, list) and len(rep) == 3 and rep[0] != n:
+            nums = [r[0] for r in reps if not is_error(r) and isinstance(r, list) and len(r) == 3]
+            rep = [nums[0]] if nums else None
+            if nums and n not in nums:
                 ctx.violation('correspondence', '%s: number of variables %d differs from the family model (%s)' % (fam['name'], n, rep[0]),
                               dict(input=dict(family=fam['name'], params=p), theorem='C10_rendering_in_range'), False, site='family-numvar-model', cls=fam['name'])
 
